@@ -24,11 +24,21 @@ TIMEOUT = {"quick": 900, "thorough": 3600}
 N_HIST = {"quick": 10, "thorough": 150}
 
 
-def listing(d):
+def listing(d, skip=None):
+    """Names in a directory; for every file but `skip` (the database itself) also its size and content hash, so that
+    a bystander file that is rewritten shows as well as one that is removed or created."""
     try:
-        return sorted(os.listdir(d))
+        names = sorted(os.listdir(d))
     except FileNotFoundError:
         return ["<missing>"]
+    out = []
+    for n in names:
+        if n == skip:
+            out.append(n)
+            continue
+        dg = digest(os.path.join(d, n))
+        out.append(n if dg is None else f"{n} [{dg[0]}B {dg[1][:8]}]")
+    return out
 
 
 def digest(path):
@@ -47,7 +57,7 @@ class Watch:
         self.dbdir = os.path.dirname(s.path)
 
     def snap(self):
-        d = {"file": digest(self.s.path), "tmp": listing(self.tmp), "dbdir": listing(self.dbdir)}
+        d = {"file": digest(self.s.path), "tmp": listing(self.tmp), "dbdir": listing(self.dbdir, os.path.basename(self.s.path))}
         if not self.s.cfg.get("flush", True):
             # buffered inserts: rows still pending in the handle's buffer may reach the file during any later call
             d["raw"] = self.s.file_bytes()
